@@ -26,7 +26,7 @@ AREAS = {
 }
 
 PROPS = {
-    "C14": {"seed": 14, "areas": [("header", 600), ("merge", 450), ("instance", 200), ("sweeper", 100)], "thorough_mult": 8,
+    "C14": {"seed": 14, "areas": [("header", 600), ("merge", 450), ("instance", 200), ("sweeper", 100), ("syncloop", 96)], "thorough_mult": 8,
             "assumptions": ["timestamps, transaction ids < 2^64 and flag bytes < 256 (Go types uint64/uint8)",
                             "values are byte strings (every element < 256)"],
             "trusted_base": ["modelled: lmdbenv/header/header.go PutBasic/Parse/Skip/getNumExtra/Flags, syncer/iterators.go Merge/Clean/addHeader; Header.Bytes/doBytes (not used by the sync path) is not modelled"]},
